@@ -3,6 +3,7 @@
 package main
 
 import (
+	"os"
 	"encoding/json"
 	"fmt"
 	"math/rand"
@@ -41,7 +42,13 @@ func (s *session) emit(k, p, op, res string) {
 	s.mu.Unlock()
 }
 
+// run executes one session. Every third session is "targeted": executor a runs its jobs back to
+// back (no jitter between them) with executions long enough that a Close issued by another
+// goroutine finds one in flight and has to wait -- the next job then competes with the woken
+// closer for the mutex, which is the window between idle.Wait's wake-up and its re-acquiring the
+// mutex that the controlling scheduler of the replay cannot open (no yield point inside Cond.Wait).
 func (s *session) run(rng *rand.Rand) {
+	targeted := s.id%3 == 0
 	s.ctx = py.NewContext(py.ContextOpts{SysPaths: []string{racDir}})
 	_, err := s.ctx.ModuleInit(&py.ModuleImpl{Info: py.ModuleInfo{Name: "vcb"},
 		OnContextClosed: func(*py.Module) { s.emit("cb", "-", "-", "-") }})
@@ -64,6 +71,12 @@ func (s *session) run(rng *rand.Rand) {
 	scripts["d"] = pick([]string{"close", "nop", "nop", "close"}, 1+rng.Intn(3))
 	// make sure someone closes so that waits end
 	scripts["d"] = append(scripts["d"], "close")
+	if targeted {
+		scripts["a"] = pick([]string{"run", "run", "minit", "rac", "runr"}, 4+rng.Intn(4))
+		scripts["b"] = nil
+		scripts["c"] = []string{"close"}
+		scripts["d"] = pick([]string{"wait", "close"}, 1)
+	}
 	seeds := map[string]int64{}
 	for p := range scripts {
 		seeds[p] = rng.Int63()
@@ -85,11 +98,23 @@ func (s *session) run(rng *rand.Rand) {
 			}
 			y := py.MustNewMethod("y", func(self py.Object) (py.Object, error) {
 				s.emit("exec", p, "-", "-")
-				jitter()
+				if targeted {
+					time.Sleep(time.Duration(40+lr.Intn(120)) * time.Microsecond)
+				} else {
+					jitter()
+				}
+				// still inside the admitted execution: a callback round logged between the two
+				// events ran while this execution was in flight
+				s.emit("exec", p, "-", "-")
 				return py.None, nil
 			}, 0, "")
+			if targeted && p != "a" {
+				time.Sleep(time.Duration(20+lr.Intn(400)) * time.Microsecond)
+			}
 			for _, op := range sc {
-				jitter()
+				if !(targeted && p == "a") {
+					jitter()
+				}
 				if op == "nop" {
 					continue
 				}
@@ -143,6 +168,12 @@ func stress(env *common.Env, rep *common.Report, rng *rand.Rand) {
 			}
 		}
 		all = append(all, s.log...)
+		if os.Getenv("VERIF_C09_DUMP") != "" && i%3 == 0 && i < 30 {
+			for _, e := range s.log {
+				fmt.Printf("%d:%s/%s/%s/%s ", e.S, e.K, e.P, e.Op, e.Res)
+			}
+			fmt.Println()
+		}
 		s.mu.Unlock()
 		if hangs > 0 {
 			break
@@ -172,6 +203,9 @@ func stress(env *common.Env, rep *common.Report, rng *rand.Rand) {
 			j, _ := json.Marshal(e)
 			b.Write(j)
 			b.WriteByte('\n')
+		}
+		if d := os.Getenv("VERIF_C09_DUMP"); d != "" {
+			os.WriteFile(d+".trace.ndjson", []byte(b.String()), 0o644)
 		}
 		var rejected []byte
 		res := env.MustTLC(common.TLCRun{Dir: "C09", Module: "LifecycleAbsTrace", Config: "trace.cfg", Workers: 1,
